@@ -306,7 +306,10 @@ def gen_logic_audit(names):
         for n in ns:
             r = res[n + '_eq_model']
             if n in info['untranslatable']:
-                r = {'ok': False, 'axioms': None, 'why': 'the function is no longer in the translatable subset: ' + info['untranslatable'][n]}
+                # structural: the statements the table selects are no longer there in a form the translator reads (moved, renamed, outside
+                # the subset).  Nothing says the behaviour changed; what is lost is this tie, not the correspondence tie of the same model function
+                r = {'ok': False, 'axioms': None, 'structural': True,
+                     'why': 'the function is no longer in the translatable subset: ' + info['untranslatable'][n]}
             out['GenLogic.%s_eq_model' % n] = r
     return out, info
 
